@@ -65,8 +65,14 @@ func runC02(c *core.Ctx) {
 				return
 			}
 			spec := genPacketSpec(t, 200)
+			if t.Chance(1, 300) {
+				// a jumbo packet whose RFC 3550 extension needs more than 14 bits of its 16-bit word count
+				spec.profile, spec.legacyProfile = profLegacy, 0x0123
+				spec.exts = []extEl{{0, t.Bytes(4 * (0x4000 + t.Intn(8)))}}
+				c.Probe("jumbo-extension")
+			}
 			img := spec.encode()
-			w.Send(datagram{stream: s, frame: k, b: img})
+			w.Send(datagram{stream: s, frame: k, b: img, meta: spec})
 			loop.After(int64(100_000+t.Intn(20_000_000)), func() { send(k + 1) })
 		}
 		loop.After(int64(t.Intn(1_000_000)), func() { send(0) })
@@ -192,6 +198,19 @@ func c02decode(c *core.Ctx, rx *c02rx, raw []byte, d datagram) {
 		}
 	} else if herr == nil && len(raw) > 0 && raw[0]&0x20 != 0 {
 		c.Probe("padding-exceeds")
+	}
+	// an undamaged genuine image must decode to exactly what the sender put in: "the payload and every
+	// extension value are exactly the corresponding input bytes" for an input whose layout is known
+	if spec, ok := d.meta.(*pktSpec); ok && !d.damaged && !d.garbage {
+		flush := spec.profile != profNone && len(spec.payload) == 0 && spec.padSize == 0
+		if perr != nil {
+			c.Violate("genuine", "C02/genuine/rejected", "a well-formed image of the model encoder was rejected: %v (%s)", perr, spec)
+		} else if k, a, b := c20diff(c, &rx.pkt, spec); k != "" {
+			c.Violate("genuine", "C02/genuine/"+k, "a well-formed image decodes with %s=%s, it was built with %s (%s)", k, a, b, spec)
+		} else if n != spec.layout().extEnd {
+			c.Violate("genuine", "C02/genuine/header-length", "header length %d, the image's header is %d bytes (%s)", n, spec.layout().extEnd, spec)
+		}
+		_ = flush
 	}
 	// probes over the receiver's history
 	if herr == nil {
